@@ -16,8 +16,8 @@ PAIRS = ["vtmf/key-nizk", "vtmf/key-interactive", "vtmf/key-publiccoin", "vtmf/c
          "tmcg/maskcard-qr", "tmcg/cardsecret-qr", "tmcg/stackeq-qr", "tmcg/stackeq-qr-cyclic",
          "rabin/sign", "rabin/key-nizk"]
 NO_PUB = {"vtmf/key-nizk", "edcf/flip-twoparty", "rabin/sign", "rabin/key-nizk"}
-QUICK_DLOG = ["+1", "other", "+q", "+p", "nonmember", "delete"]
-FULL_DLOG = QUICK_DLOG + ["neg", "zero", "one", "p-1", "p", "q", "oversized", "truncate", "swap", "empty"]
+QUICK_DLOG = ["+1", "other", "+q", "+p", "nonmember", "neg", "delete"]
+FULL_DLOG = QUICK_DLOG + ["zero", "one", "p-1", "p", "q", "oversized", "truncate", "swap", "empty"]
 QR_MUT = ["2v", "zero", "one", "truncate"]
 ALT = ["group:other", "group:g^2", "key:extra-share", "com:other-seed", "key:other-rabin"]
 
